@@ -5,8 +5,20 @@ ALL = ["C%02d" % i for i in range(1, 21)]
 
 CHECKS = [
     {
+        "property_id": "C04",
+        "text": "Coq theorems by one inductive invariant over all runs of the protocol model with any number of honest clients (log density, per-actor clientSeq order, exactly-once/no-echo delivery, bounded checkpoints), plus density under arbitrary (hostile) requests. The model is executed on the request/response traffic recorded from the real in-process server for random multi-client histories (attach/detach/re-attach, push-only, in-flight edits, lost responses) and must reproduce every response and the final log; independent oracles judge the implementation's own log and traffic.",
+        "note": "Trusted: Coq kernel, harness, actor-rank mapping. Model granularity is one PushPull at a time (the doc.push lock / CAS interleavings are not in this check); memory DB only.",
+        "technique": "Coq proof (inductive invariant over protocol runs) + trace replay correspondence against the real server",
+    },
+    {
+        "property_id": "C05",
+        "text": "Coq theorems over the same protocol model: after any run with lost responses and retries the honest client's retry is accepted and acknowledges everything pending, no (actor, clientSeq) is stored twice, delivery stays exactly-once. Tied to the code by replaying recorded traffic with retried identical requests; oracles on the real log (no duplicate rows), convergence of the real documents.",
+        "note": "Trusted: as C04. Faults between the storage calls of one request are not covered by this check yet (known defect P8 of the pinned tree lives there).",
+        "technique": "Coq proof (protocol invariant incl. lost responses) + trace replay correspondence",
+    },
+    {
         "property_id": "C06",
-        "text": "Coq theorems over the clock model for every event sequence of a replica (own entry, causal dominance, lamport strictness for opt-out authors, per-author monotonicity) and for every list of vectors (minimum never overstates); the model's executable definitions are compared with change.ID/change.Context/time.VersionVector on random event sequences on every run.",
+        "text": "Coq theorems over the clock model for every event sequence of a replica (system level: the response vector is the minimum over the stored rows, theorem on the protocol model; the ids in the real server log of random histories are checked for own-entry, uniqueness, monotonicity) (own entry, causal dominance, lamport strictness for opt-out authors, per-author monotonicity) and for every list of vectors (minimum never overstates); the model's executable definitions are compared with change.ID/change.Context/time.VersionVector on random event sequences on every run.",
         "note": "Trusted: Coq kernel, the harness, actor-rank mapping. The theorems are about Clock/ChangeID.v and Base/VV.v; the tie to the Go code is differential (600 cases quick, 6000 thorough).",
         "technique": "Coq proof (induction over replica event traces) + differential correspondence against the Go code",
     },
